@@ -114,6 +114,16 @@ func c13Faults() []faultForm {
 		{"unknown-identifier-multi-line-block", "{{ zzFault +\n1\n}}", false},
 		{"division-by-zero-multi-line-block", "{{ 7 / (3 - 3) }}{{-- zzFault --}}{{ 1 +\n2 }}", false},
 		{"illegal-character-own-line", "{{ 1 +\n\n# }}{{-- zzFault --}}", true},
+		// the offending construct is anchored on a name that already occurs on earlier
+		// lines of the file: the line is that of this occurrence, not of the first one
+		{"division-by-zero-repeated-name", "{{ zzN = 4 }}{{ zzN }}\n\n{{ zzN / 0 }}{{-- zzFault --}}", false},
+		{"modulo-by-zero-repeated-name", "{{ zzM = 4 }}\n{{ zzM + 1 }}\n{{ zzM % 0 }}{{-- zzFault --}}", false},
+		{"mistyped-operand-repeated-name", "{{ zzS = \"s\" }}{{ zzS }}\n\n{{ zzS + 1 }}{{-- zzFault --}}", false},
+		{"unknown-identifier-repeated-name", "@if(false){{ zzGone }}@end\n\n{{ zzGone }}{{-- zzFault --}}", false},
+		{"unknown-property-repeated-name", "{{ zzO = {a: 1} }}{{ zzO.a }}\n\n{{ zzO.nosuch }}{{-- zzFault --}}", false},
+		{"unknown-function-repeated-name", "{{ zzQ = 4 }}{{ zzQ.str() }}\n\n{{ zzQ.nosuchfn() }}{{-- zzFault --}}", false},
+		{"unknown-function-repeated-function-name", "@if(false){{ 1.zzFn() }}@end\n\n{{ 2.zzFn() }}{{-- zzFault --}}", false},
+		{"unknown-identifier-repeated-in-index", "{{ zzA = [1, 2] }}{{ zzI = 0 }}{{ zzA[zzI] }}\n\n{{ zzA[zzI + zzNone] }}{{-- zzFault --}}", false},
 	}
 }
 
@@ -346,7 +356,7 @@ func TestC13_Trees(t *testing.T) {
 			}
 			page += "@insert(\"content\")\n" + fill() + compUse("1", "\n"+fill()+ff.src+"\n") + "@end\n"
 		case "page-component-arg":
-			if ff.parseTime || ff.kind == "unknown-identifier" && strings.HasPrefix(ff.src, "@") {
+			if ff.parseTime || ff.kind == "unknown-identifier" && strings.HasPrefix(ff.src, "@") || strings.Contains(ff.kind, "-repeated-") {
 				ff = faultForm{"unknown-identifier", "{{ zzFault }}", false}
 				cs.Fault = ff.kind
 			}
@@ -358,7 +368,8 @@ func TestC13_Trees(t *testing.T) {
 			if !strings.Contains(expr, marker) {
 				expr = "(" + expr + ") + zzFault"
 			}
-			page += "@insert(\"content\")\n" + fill() + "@component(\"comp\", {arg: " + expr + "})\n@end\n"
+			// the page variable pv occurs on earlier lines too
+			page += "@insert(\"content\")\n{{ pv = 2 }}{{ pv }}\n" + fill() + "@component(\"comp\", {arg: " + expr + " + pv})\n@end\n"
 		case "layout-parse":
 			ff = pickParseFault(rt, forms)
 			cs.Fault, cs.AtLoad, cs.WantFile = ff.kind, true, "t/lay.tw"
